@@ -155,11 +155,13 @@ def check_props(prop, extra_modules=()):
         raise BrokenTie("lake build RsjProps.%s failed (a proof obligation no longer checks)" % prop,
                         out[-6000:])
     # Re-elaborate the property file itself so the axiom report is always fresh.
-    with Lock("lake"):
-        rc, out = sh(["lake", "env", "lean", os.path.join("RsjProps", prop + ".lean")],
-                     cwd=LEAN_DIR, timeout=1800)
-    if rc != 0:
-        raise BrokenTie("lean RsjProps/%s.lean failed" % prop, out[-6000:])
+    out = ""
+    for mod in ["RsjProps." + prop] + list(extra_modules):
+        with Lock("lake"):
+            rc, o = sh(["lake", "env", "lean", mod.replace(".", os.sep) + ".lean"], cwd=LEAN_DIR, timeout=1800)
+        if rc != 0:
+            raise BrokenTie("lean %s.lean failed" % mod.replace(".", "/"), o[-6000:])
+        out += o
     thms = []
     for m in re.finditer(r"'([^']+)' depends on axioms: \[([^\]]*)\]", out):
         axs = {a.strip() for a in m.group(2).split(",") if a.strip()}
